@@ -32,8 +32,9 @@ Record location := { l_host : option N;   (* None: relative Location *)
 Record reply := { rp_id : N; rp_status : N; rp_loc : option location; rp_close : bool }.
 (* Pass rc o: one Client.service(); rc = the connector's reconnect timer had expired at its start.
    Eof: the connector read the server's close (connector.cutoff); in the harness this happens in the
-   receive step of the pass that also reads the last bytes of a reply, so it is placed before that Pass *)
-Inductive event := Enq (t : N) | Pass (rc : bool) (o : option reply) | Eof.
+   receive step of the pass that also reads the last bytes of a reply, so it is placed before that Pass.
+   Take: the application calls Client.respond() *)
+Inductive event := Enq (t : N) | Pass (rc : bool) (o : option reply) | Eof | Take.
 
 (* payload of a request: kind (0 none, 1 body=, 2 data=, 3 fargs=) and an id of its content *)
 Definition payload := (N * N)%type.
@@ -52,7 +53,7 @@ Record cstate := {
   queue : list N;           (* .requests *)
   waited : bool;            (* .waited *)
   latest : option N;        (* .latest (its tag) *)
-  responses : list entry;   (* .responses *)
+  responses : list entry;   (* every entry ever appended to .responses, in order (a log) *)
   redirects : list hop;     (* .redirects *)
   conn : N;                 (* how many connectors were created before the current one *)
   host : N; https : bool;   (* where the current connector points, requester.scheme *)
@@ -66,13 +67,15 @@ Record cstate := {
   pending : option (witem * qargs * payload);   (* a request sitting in connector.txbs of a cut off connection *)
   rq_pay : payload;         (* requester.body / .data / .fargs *)
   qlog : list (N * qargs);  (* per queued tag: the qargs its request dict got in Client.request (append only) *)
+  ntaken : nat;             (* how many entries Client.respond() has handed out: .responses = skipn ntaken responses *)
+  takes : list (option entry);   (* what each Client.respond() call returned *)
   rq_target : target;       (* requester.path / .qargs *)
   rtargets : list target }. (* the requests of the entries in .redirects *)
 
 Definition init_m (rcn sec rd : bool) (m : N) : cstate :=
   {| queue := []; waited := false; latest := None; responses := []; redirects := [];
      conn := 0; host := 0; https := sec; cut := false; sent := false; wire := []; redirectable := rd;
-     rq_method := m; rs_method := m; reconn := rcn; pending := None; rq_pay := nopay; qlog := []; rq_target := (false, 0, []); rtargets := [] |}.
+     rq_method := m; rs_method := m; reconn := rcn; pending := None; rq_pay := nopay; qlog := []; ntaken := 0%nat; takes := []; rq_target := (false, 0, []); rtargets := [] |}.
 Definition init (sec rd : bool) : cstate := init_m false sec rd 0.
 
 Definition HEAD : N := 1.
@@ -99,7 +102,7 @@ Definition enq (qof : N -> option qargs) (s : cstate) (t : N) : cstate :=
      redirects := redirects s; conn := conn s; host := host s; https := https s; cut := cut s;
      sent := sent s; wire := wire s; redirectable := redirectable s;
        rq_method := rq_method s; rs_method := rs_method s;
-       reconn := reconn s; pending := pending s; rq_pay := rq_pay s; qlog := qlog s ++ [(t, match qof t with Some q => q | None => snd (rq_target s) end)]; rq_target := rq_target s; rtargets := rtargets s |}.
+       reconn := reconn s; pending := pending s; rq_pay := rq_pay s; qlog := qlog s ++ [(t, match qof t with Some q => q | None => snd (rq_target s) end)]; ntaken := ntaken s; takes := takes s; rq_target := rq_target s; rtargets := rtargets s |}.
 
 Definition on_wire (s : cstate) (it : witem) (q : qargs) (py : payload) : wentry :=
   {| w_conn := conn s; w_https := https s; w_host := host s; w_item := it; w_q := q; w_pay := py |}.
@@ -129,7 +132,7 @@ Definition pump (mof : N -> N) (qof : N -> option qargs) (pq : N -> qargs) (pay 
        rq_method := mof t; rs_method := mof t;
        reconn := reconn s;
        pending := if cut s then Some (WReq t, sent_q qof pq s t, wire_pay mof pay t) else None;
-       rq_pay := pay t; qlog := qlog s; rq_target := (false, t, sent_q qof pq s t); rtargets := rtargets s |}
+       rq_pay := pay t; qlog := qlog s; ntaken := ntaken s; takes := takes s; rq_target := (false, t, sent_q qof pq s t); rtargets := rtargets s |}
   end.
 
 (* the response entry is appended with the redirect history, .redirects cleared, .waited cleared *)
@@ -141,7 +144,7 @@ Definition deliver (s : cstate) (st : N) (err cut' : bool) : cstate :=
      redirects := []; conn := conn s; host := host s; https := https s; cut := cut';
      sent := false; wire := wire s; redirectable := redirectable s;
        rq_method := rq_method s; rs_method := rs_method s;
-       reconn := reconn s; pending := pending s; rq_pay := rq_pay s; qlog := qlog s; rq_target := rq_target s; rtargets := [] |}.
+       reconn := reconn s; pending := pending s; rq_pay := rq_pay s; qlog := qlog s; ntaken := ntaken s; takes := takes s; rq_target := rq_target s; rtargets := [] |}.
 
 (* serviceResponse on a completely parsed reply *)
 Definition complete (s : cstate) (r : reply) : cstate :=
@@ -163,7 +166,7 @@ Definition complete (s : cstate) (r : reply) : cstate :=
        rq_method := rq_method s; rs_method := rq_method s;
            reconn := reconn s;
            pending := if cut' then Some (WRedir (rp_id r), l_query l, nopay) else None;
-           rq_pay := nopay; qlog := qlog s; rq_target := (true, rp_id r, l_query l); rtargets := rtargets s ++ [rq_target s] |}
+           rq_pay := nopay; qlog := qlog s; ntaken := ntaken s; takes := takes s; rq_target := (true, rp_id r, l_query l); rtargets := rtargets s ++ [rq_target s] |}
       else if https s && negb sec then
         deliver s (rp_status r) true cut'                  (* https -> http refused *)
       else
@@ -176,7 +179,7 @@ Definition complete (s : cstate) (r : reply) : cstate :=
            redirectable := redirectable s;
        rq_method := rq_method s; rs_method := rq_method s;
            reconn := false; pending := None;
-           rq_pay := nopay; qlog := qlog s; rq_target := (true, rp_id r, l_query l); rtargets := rtargets s ++ [rq_target s] |}
+           rq_pay := nopay; qlog := qlog s; ntaken := ntaken s; takes := takes s; rq_target := (true, rp_id r, l_query l); rtargets := rtargets s ++ [rq_target s] |}
     end
   else deliver s (rp_status r) false cut'.
 
@@ -193,13 +196,24 @@ Definition reconnect (s : cstate) : cstate :=
              end;
      redirectable := redirectable s; rq_method := rq_method s; rs_method := rs_method s;
      reconn := reconn s; pending := None; rq_pay := rq_pay s; qlog := qlog s;
-     rq_target := rq_target s; rtargets := rtargets s |}.
+     ntaken := ntaken s; takes := takes s; rq_target := rq_target s; rtargets := rtargets s |}.
 
 Definition set_cut (s : cstate) : cstate :=
   {| queue := queue s; waited := waited s; latest := latest s; responses := responses s;
      redirects := redirects s; conn := conn s; host := host s; https := https s; cut := true;
      sent := sent s; wire := wire s; redirectable := redirectable s; rq_method := rq_method s;
      rs_method := rs_method s; reconn := reconn s; pending := pending s; rq_pay := rq_pay s; qlog := qlog s;
+     ntaken := ntaken s; takes := takes s; rq_target := rq_target s; rtargets := rtargets s |}.
+
+(* Client.respond(): pop the OLDEST waiting entry (None when nothing waits) *)
+Definition respond (s : cstate) : cstate :=
+  let r := nth_error (responses s) (ntaken s) in
+  {| queue := queue s; waited := waited s; latest := latest s; responses := responses s;
+     redirects := redirects s; conn := conn s; host := host s; https := https s; cut := cut s;
+     sent := sent s; wire := wire s; redirectable := redirectable s; rq_method := rq_method s;
+     rs_method := rs_method s; reconn := reconn s; pending := pending s; rq_pay := rq_pay s; qlog := qlog s;
+     ntaken := match r with Some _ => S (ntaken s) | None => ntaken s end;
+     takes := takes s ++ [r];
      rq_target := rq_target s; rtargets := rtargets s |}.
 
 (* the server saw rq_method on the wire and sent body bytes accordingly; the respondent
@@ -218,6 +232,7 @@ Definition step (mof : N -> N) (qof : N -> option qargs) (pq : N -> qargs) (pay 
     | None => s1
     end
   | Eof => set_cut s
+  | Take => respond s
   end.
 
 Definition run (mof : N -> N) (qof : N -> option qargs) (pq : N -> qargs) (pay : N -> payload) (s : cstate) (evs : list event) : cstate :=
@@ -229,7 +244,7 @@ Definition origin (e : entry) : option N :=
 Definition inflight (s : cstate) : list (option N) :=
   if waited s then [match redirects s with h :: _ => snd h | [] => latest s end] else [].
 Fixpoint enqs (evs : list event) : list N :=
-  match evs with [] => [] | Enq t :: r => t :: enqs r | Pass _ _ :: r => enqs r | Eof :: r => enqs r end.
+  match evs with [] => [] | Enq t :: r => t :: enqs r | _ :: r => enqs r end.
 Fixpoint wire_reqs (w : list wentry) : list N :=
   match w with
   | [] => []
@@ -239,7 +254,7 @@ Fixpoint wire_reqs (w : list wentry) : list N :=
 (* ---------- correspondence ---------- *)
 Definition obs := (bool * N * N * N)%type.   (* waited, len(requests), len(responses), len(redirects) *)
 Definition observe (s : cstate) : obs :=
-  (waited s, N.of_nat (length (queue s)), N.of_nat (length (responses s)), N.of_nat (length (redirects s))).
+  (waited s, N.of_nat (length (queue s)), N.of_nat (length (responses s) - ntaken s), N.of_nat (length (redirects s))).
 
 Fixpoint run_trace (mof : N -> N) (qof : N -> option qargs) (pq : N -> qargs) (pay : N -> payload) (s : cstate) (evs : list event) : cstate * list obs :=
   match evs with
@@ -252,7 +267,8 @@ Fixpoint run_trace (mof : N -> N) (qof : N -> option qargs) (pq : N -> qargs) (p
 
 Record case := { c_reconn : bool; c_https : bool; c_redirectable : bool; c_cmethod : N; c_methods : list (N * N); c_qargs : list (N * option qargs); c_pathq : list (N * qargs); c_pays : list (N * payload);
                  c_events : list event;
-                 c_trace : list obs; c_entries : list entry; c_wire : list wentry }.
+                 c_trace : list obs; c_entries : list entry; c_wire : list wentry;
+                 c_takes : list (option entry) }.
 
 Definition obs_eqb (x y : obs) : bool :=
   match x, y with (a, b, c, d), (a', b', c', d') => Bool.eqb a a' && (b =? b') && (c =? c') && (d =? d') end.
@@ -284,7 +300,7 @@ Fixpoint pay_of (l : list (N * payload)) (t : N) : payload :=
 Definition check_case (c : case) : bool :=
   let (s, tr) := run_trace (mof_of (c_methods c)) (qof_of (c_qargs c)) (qlookup (c_pathq c)) (pay_of (c_pays c)) (init_m (c_reconn c) (c_https c) (c_redirectable c) (c_cmethod c)) (c_events c) in
   list_eqb obs_eqb tr (c_trace c) && list_eqb entry_eqb (responses s) (c_entries c) &&
-  list_eqb wentry_eqb (wire s) (c_wire c).
+  list_eqb wentry_eqb (wire s) (c_wire c) && list_eqb (option_eqb entry_eqb) (takes s) (c_takes c).
 
 (* branch ids of each event:
    0 enq  1 idle pass  2 request popped and sent  3 request popped on a cut connection (never sent)
@@ -295,6 +311,7 @@ Definition n_branches : nat := 12.
 Definition branch_of (mof : N -> N) (qof : N -> option qargs) (pq : N -> qargs) (pay : N -> payload) (s : cstate) (e : event) : list nat :=
   match e with
   | Eof => []
+  | Take => []
   | Enq _ => [0%nat]
   | Pass rc o =>
     let s := if rc && cut s && reconn s then reconnect s else s in
